@@ -151,7 +151,7 @@ func (Prop) RunBatch(c *vp.Child) {
 		eng.RunFixed(c, len(idx), c.Pick(1, 2), func(i int) (*lg.Program, string) {
 			return all[idx[i]].Program(), "script:" + all[idx[i]].String()
 		}, handoffs)
-		nr := c.Pick(1500, 40000)
+		nr := c.Pick(1500, 20000)
 		eng.RunFixed(c, nr, 1, func(i int) (*lg.Program, string) {
 			r := rand.New(rand.NewSource(c.Seed*31 + int64(i)))
 			s := lg.RandomCoScript(r, 2+r.Intn(2), 6, 8)
@@ -176,7 +176,7 @@ func (Prop) RunBatch(c *vp.Child) {
 			}, handoffs)
 		}
 		cp := eng.Corpus{
-			Programs:   c.Pick(1200, 40000),
+			Programs:   c.Pick(1200, 20000),
 			Options:    coOptions,
 			NStyles:    1,
 			NArgs:      c.Pick(1, 2),
